@@ -10,7 +10,7 @@ import time
 
 HERE = os.path.dirname(os.path.abspath(__file__))
 VERIF = os.path.dirname(HERE)
-sys.path[:0] = [VERIF, '/repo']
+sys.path[:0] = [VERIF, os.environ.get('SYMNP_REPO', '/repo')]
 
 from symnp import runner, solve  # noqa: E402
 from symnp.harness import REGISTRY  # noqa: E402
